@@ -154,4 +154,19 @@ PROPS = {
         "rule": "size criteria x namings x modes {direct, buf:1/7/64/8192, bufflush, async pool/msg small}; non-trivial = rotation happened",
         "trusted": ["crossbeam channel FIFO"],
     },
+    "C04": {
+        "level_text": "Kernel-checked: (sync) after flush/shutdown/drop the buffer is empty and the files hold exactly the written bytes, for every naming/criterion/"
+                      "capacity (sync_flush_shutdown_complete via refines_all); a drop of a clone in the middle is a flush and does not disturb later output "
+                      "(clone_drop_harmless_sync); (async) shutdown = control message behind all earlier messages + join: every record handed over before is in the "
+                      "stream, once, in per-thread order, for every schedule (async_shutdown_complete, from Conc). The async clone-drop sentence is proved FALSE of the "
+                      "code (witness) and is a known finding. Validation through a real Logger/LoggerHandle: records via Log::log, flush/shutdown/clone/drop at seeded "
+                      "positions, file bytes read immediately after the call returns; stdout/stderr via child processes that exit right after shutdown/drop/flush.",
+        "level_note": "PARTIAL for timing: the real flusher and writer threads are represented only at the granularity of the protocol steps; the delivery guarantee of "
+                      "flush() is claimed for the synchronous modes only (as the property says). Known finding C04-async-clone-drop (not repaired, see known_findings.json).",
+        "correspondence": "Flw model vs Logger::build() + LoggerHandle::{flush,shutdown,clone,drop}; child process stdout/stderr vs the lines logged",
+        "rule": "modes direct/buf/bufflush/async x with/without rotation x record volumes above and below the buffer x clone/drop/flush at seeded positions, ending by shutdown() "
+                "or drop of the last handle; 40 child-process runs to stdout/stderr; non-trivial = more than one record reached the observation point",
+        "trusted": ["std::io::BufWriter", "crossbeam channel FIFO", "process exit does not lose data already handed to write(2)"],
+        "shards": 8,
+    },
 }
